@@ -136,12 +136,12 @@ Theorem C07_wakeups_cover_limit_partial : forall c tr s t k,
 Proof. exact wakeups_cover_limit. Qed.
 Print Assumptions C07_wakeups_cover_limit_partial.
 
-(* non-vacuity: a state satisfying every hypothesis of the partial theorem, reached through a wake-up
-   that is cancelled in flight and handed on, and a lost race with a re-queue at the front *)
+(* non-vacuity: a state satisfying every hypothesis of the partial theorem, reached through a lost
+   race: request 1 is woken, request 4 takes the freed slot first, request 1 re-queues at the front *)
 Example C07_no_lost_wakeup_partial_example :
   let c := {| limit := 1; lph := 0; force_close := false |} in
-  let tr := [EStart 0 0; ECreateOk 0; EStart 1 0; EStart 2 1; EStart 3 0; ERelease 0 true [1; 0];
-             ECancel 2; EStart 4 1; EResume 2 [0; 1]] in
+  let tr := [EStart 0 0; ECreateOk 0; EStart 1 0; EStart 3 0; ERelease 0 true [0]; EStart 4 0;
+             EResume 1 []] in
   exists s, run c init tr = Some s /\ closed s = false /\ woken s = [] /\
             waiters s = [(1, 0, false); (3, 0, false)] /\ length (acquired s) = 1%nat.
 Proof. eexists. vm_compute. repeat split; reflexivity. Qed.
